@@ -212,6 +212,10 @@ let c04_monitors (capmb : n) node ops (obs : obs list) : string list =
        if (prev.rads, sd prev.cnt, prev.recs, sd prev.held, prev.gets) <> (ob.rads, sd ob.cnt, ob.recs, sd ob.held, ob.gets)
        then fail "refused-put-changed-state" (Printf.sprintf "step=%d" i)
      | _ -> ());
+    (* the record on disk (read by a scan right after the step) is the usage figure the store keeps in memory: what a
+       restart will reload decides whether readable items are pruned at open *)
+    if has_rec ob && not (N.eqb (rec_n ob) ob.cnt)
+    then fail "persisted-size-record-differs-from-counter" (Printf.sprintf "step=%d record=%s counter=%s bytes-present=%s" i ob.recs (sd ob.cnt) (sd ob.held));
     List.iteri (fun j id ->
       if valid_id node id then begin
         let g = List.nth ob.gets j and g0 = List.nth prev.gets j in
@@ -229,7 +233,10 @@ let c04_monitors (capmb : n) node ops (obs : obs list) : string list =
          | G _ -> if g <> g0 then fail "get-changed-by-get" (Printf.sprintf "step=%d id#%d %s->%s" i j g0 g)
          | R | K _ | C _ ->
            if g <> g0 && g <> "nf" then fail "get-changed-by-reopen" (Printf.sprintf "step=%d id#%d %s->%s" i j g0 g);
-           if g <> g0 && g = "nf" && not (rec_n prev >: cap) then fail "item-lost-by-reopen-without-prune" (Printf.sprintf "step=%d id#%d" i j))
+           (* NewStorage prunes only when the usage figure it reloads exceeds the capacity; that figure is the counter
+              the store kept in memory before it was closed (an implementation observation, not the model's) *)
+           if g <> g0 && g = "nf" && not (prev.cnt >: cap)
+           then fail "item-lost-across-reopen-without-over-capacity" (Printf.sprintf "step=%d id#%d counter-before-close=%s" i j (sd prev.cnt)))
       end) ids;
     (match o with
      | G id when valid_id node id ->
@@ -666,6 +673,49 @@ let handle fields impl : string option * string list =
             (if ob.held >: ob.cnt then [Printf.sprintf "concurrent-puts-held-exceeds-counter held=%s counter=%s" (sd ob.held) (sd ob.cnt)] else []) @
             (if small && ob.held >: cap then [Printf.sprintf "held-exceeds-capacity-after-quiescence held=%s cap=%s" (sd ob.held) (sd cap)] else [])
           | _ -> ["concurrent-history-final-observation-unparsable"]) in
+       (Some m, mons))
+  | ["node06"; _capmb; _key; opss] ->
+    (* node level: PortalProtocol.InRange (the rule of the Store RPC and, through p.Radius(), of the offer filters) must
+       give the verdict of the store's own admission for the same id, and the radius the node works with must be the
+       store's.  Ids whose storage keys are palindromes: big- and little-endian readings coincide (independent of the
+       known finding).  Implementation observations only. *)
+    let ops = split ';' opss in
+    (match split_impl impl with
+     | Some (None, _, body) when List.length (split ';' body) = List.length ops ->
+       let mons = List.concat (List.mapi (fun i (o, st) ->
+         let f = split ',' st in
+         let radii nr sr = if nr <> sr then [Printf.sprintf "node-radius-differs-from-store-radius step=%d op=%s node=%s store=%s" i o nr sr] else [] in
+         match (split ',' o), f with
+         | "q" :: _, [inr; adm; nr; sr] ->
+           (if inr <> adm then [Printf.sprintf "node-in-range-disagrees-with-store-admission step=%d op=%s in-range=%s admitted=%s node-radius=%s store-radius=%s" i o inr adm nr sr] else []) @ radii nr sr
+         | "s" :: _, [_; nr; sr] -> radii nr sr
+         | "r" :: _, [nr; sr] -> radii nr sr
+         | _ -> [Printf.sprintf "node-history-step-unparsable step=%d" i]) (List.combine ops (split ';' body))) in
+       (None, mons)
+     | _ -> (None, ["node-history-failed-or-unparsable " ^ (if String.length impl > 100 then String.sub impl 0 100 else impl)]))
+  | ["gate17"; capmb; node; plan] ->
+    (* a put issued while a prune waits for its WAL fsync: the recorded history must be linearizable w.r.t. the
+       sequential model, and the size record must cover the bytes present - live and after close + reopen *)
+    let capmb = (match n_of_dec_opt capmb with Some c -> c | None -> zero) and node = Util.bytes_of_hex node in
+    let puts = lin_parse_plan plan in
+    let parsed = match split ' ' impl with
+      | ["ok"; ev; fin; re; during] ->
+        (match lin_parse_events ev (List.length puts) with Some evs -> Some (evs, "ok " ^ fin, "ok " ^ re, during) | None -> None)
+      | _ -> None in
+    (match parsed with
+     | None -> (Some "ok <events> <final> <reopened> <during>", ["gated-prune-history-run-failed-or-unparsable " ^ (if String.length impl > 100 then String.sub impl 0 100 else impl)])
+     | Some (evs, fin, re, during) ->
+       let (lin, budget, n, nodes) = lin_search capmb node puts evs fin in
+       let m = if lin then impl else if budget then "linearization-search-budget-exceeded" else "no-linearization-of-this-history" in
+       let chk what o = match parse_obs o with
+         | Some [ob] ->
+           (if has_rec ob && rec_n ob <: ob.held then [Printf.sprintf "size-record-below-bytes-present-after-put-during-prune at=%s rec=%s held=%s put-returned-during-fsync=%s" what ob.recs (sd ob.held) during] else []) @
+           (if ob.recs = "none" && ob.held >: zero then [Printf.sprintf "size-record-missing-after-put-during-prune at=%s" what] else []) @
+           (if what = "live" && ob.held >: ob.cnt then [Printf.sprintf "counter-below-bytes-present-after-put-during-prune counter=%s held=%s" (sd ob.cnt) (sd ob.held)] else [])
+         | _ -> ["gated-prune-observation-unparsable at=" ^ what] in
+       let mons =
+         (if not lin && not budget then [Printf.sprintf "concurrent-history-not-linearizable puts=%d searched=%d put-returned-during-fsync=%s" n nodes during] else []) @
+         chk "live" fin @ chk "reopened" re in
        (Some m, mons))
   | ["lin06"; capmb; node; plan; _gate] ->
     (* C06 over a recorded concurrent history: linearizable w.r.t. the sequential model, every retained item within
